@@ -28,6 +28,9 @@ TypeOf(n)     == [t |-> "typeof", n |-> n]
 
 MkUnion(S) == IF S = {} THEN TNever ELSE IF Cardinality(S) = 1 THEN CHOOSE x \in S : TRUE ELSE Uni(SetToSeq(S))
 
+\* numbers are carried as strings
+NumIndex(n) == CASE n = "0" -> 0 [] n = "1" -> 1 [] n = "2" -> 2 [] n = "3" -> 3 [] n = "4" -> 4 [] n = "5" -> 5 [] OTHER -> 99
+
 RECURSIVE Ev(_, _), ObjOf(_, _)
 
 \* the object view of a type: a set of object types whose union it is (through refs, unions, merged intersections)
@@ -67,6 +70,16 @@ Ev(T, env) ==
                   anyIx == \A o \in os : o.ix # <<>>
               \* keyof of a string index signature is string | number in TypeScript; whether a JS number is a "key" is contested
               IN MkUnion({LS(k) : k \in common} \cup (IF anyIx THEN {TString, Prim("numberkey")} ELSE {}))
+    [] T.t = "index" /\ (\A b \in Branches(Ev(T.a, env), env) : b.t = "tuple") ->
+         \* indexed access into tuples by numeric literals: the element, or the rest type from the prefix length on
+         LET ts == Branches(Ev(T.a, env), env)
+             ib == Branches(Ev(T.i, env), env)
+             idx == {NumIndex(b.v.n) : b \in {b \in ib : b.t = "lit" /\ b.v.k = "num"}}
+             anyNumber == \E b \in ib : b.t = "prim" /\ b.p = "number"
+             ElemAt(t, n) == IF n < Len(t.es) THEN {Ev(t.es[n + 1], env)} ELSE IF t.r # <<>> THEN {Ev(t.r[1], env)} ELSE {}
+         IN MkUnion(UNION { UNION {ElemAt(t, n) : n \in idx}
+                            \cup (IF anyNumber THEN {Ev(t.es[i], env) : i \in DOMAIN t.es} \cup {Ev(t.r[i], env) : i \in DOMAIN t.r} ELSE {})
+                          : t \in ts })
     [] T.t = "index" ->
          LET os == ObjOf(T.a, env)  ks == KeyLits(T.i, env) IN
          MkUnion(UNION { { LET p == o.ps[PropIdx(o, k)] IN IF p.opt THEN AddUndef(Ev(p.ty, env)) ELSE Ev(p.ty, env)
